@@ -372,6 +372,24 @@ pub fn run(rec: &mut Rec, rng: &mut Rng, thorough: bool) {
             block_case(rec, rng, &[l2, b"Accept: text/plain".to_vec(), l1], "custom-pair");
         }
     }
+    // near misses of the recognised names: every byte of every recognised name replaced by its 0x20-flipped twin and by
+    // the byte with bit 0x20 cleared ('-' -> CR, letters -> other case, ...): only letter case may differ, nothing else
+    for (i, name) in gen::REC_NAMES.iter().enumerate() {
+        let v = gen::values_for(i).first().cloned().unwrap_or("x");
+        let nb = name.as_bytes();
+        for pos in 0..nb.len() {
+            for twin in [nb[pos] ^ 0x20, nb[pos] & !0x20, nb[pos] | 0x80, nb[pos].wrapping_add(1)] {
+                if twin == nb[pos] || twin == b'\n' || twin == b':' {
+                    continue;
+                }
+                let mut line = nb.to_vec();
+                line[pos] = twin;
+                line.extend_from_slice(b": ");
+                line.extend_from_slice(v.as_bytes());
+                block_case(rec, rng, &[line, b"X-After: 1".to_vec()], "name-near-miss");
+            }
+        }
+    }
     // long names, long values, many lines: nothing in the header rules has a length or a count limit of its own
     for len in [15usize, 16, 17, 18, 31, 32, 33, 63, 64, 65, 127, 128, 129, 255, 256, 257, 600, 3000] {
         let name = format!("X-{}", "n".repeat(len - 2));
